@@ -452,6 +452,10 @@ pub struct WriteTransaction {
 }
 
 impl WriteTransaction {
+    /// durability is not modelled (every commit of the model is "durable"); present so that code using it compiles
+    pub fn set_durability(&mut self, _durability: Durability) -> std::result::Result<(), SetDurabilityError> {
+        Ok(())
+    }
     pub fn open_table<'txn, K: Key + 'static, V: Value + 'static>(
         &'txn self,
         definition: TableDefinition<K, V>,
